@@ -14,7 +14,7 @@ import warnings
 
 from hypothesis import HealthCheck, Phase, given, seed as hseed, settings, strategies as st
 
-from vf import env
+from vf import env, hyp
 from vf.acc import Acc
 from vf.gen import corpus, patterns
 from vf.ref import matcher as ref
@@ -400,32 +400,19 @@ def run_shard(spec):
         return acc
 
     if spec["kind"] == "obj":
-        @hseed(spec["seed"])
-        @settings(max_examples=spec["n"], database=None, deadline=None, phases=[Phase.generate],
-                  suppress_health_check=list(HealthCheck))
-        @given(obj_specs(), st.sampled_from(OBJ_SOURCES))
-        def go_obj(spec_, src):
-            if time.time() - t0 > spec["budget_s"]:
-                acc.budget_exhausted = True
-                return
+        def go_obj(pair):
+            spec_, src = pair
             case = {"layer": "obj", "spec": spec_, "source": src}
             fails, want = obj_eval(case)
             acc.case(case, True, ["obj:match" if want else "obj:no-match"])
             acc.fails(fails)
 
-        go_obj()
+        hyp.run(st.tuples(obj_specs(), st.sampled_from(OBJ_SOURCES)), go_obj, spec["n"], spec["seed"], spec["budget_s"], acc, chunk=500)
         return acc
 
     sources = [s for s in corpus.ascii_examples() if len(s) < 3000]
 
-    @hseed(spec["seed"])
-    @settings(max_examples=spec["n"], database=None, deadline=None, phases=[Phase.generate],
-              suppress_health_check=list(HealthCheck))
-    @given(st.data())
     def go(data):
-        if time.time() - t0 > spec["budget_s"]:
-            acc.budget_exhausted = True
-            return
         source = data.draw(st.sampled_from(sources))
         with warnings.catch_warnings():
             warnings.simplefilter("ignore")
@@ -458,7 +445,7 @@ def run_shard(spec):
             fails = fails + [{"bucket": "halo:self-pattern-no-reference-match", "case": case, "detail": "harness: reference rejects a node's own text"}]
         acc.fails(fails)
 
-    go()
+    hyp.run(st.data(), go, spec["n"], spec["seed"], spec["budget_s"], acc, chunk=100)
     return acc
 
 
